@@ -104,6 +104,15 @@ func NewSparseFile(name string, idx Index, s Store, opt SparseFileOptions) (*Spa
 		}
 	}
 
+	// The sparse file was (re-)initialized. A save state file left over from before
+	// no longer describes it, and would be trusted on the next start if this process
+	// dies before it gets to save its state. Replace it with the current state.
+	if opt.StateSaveFile != "" {
+		if err := sf.WriteState(); err != nil {
+			return nil, err
+		}
+	}
+
 	return sf, nil
 }
 
